@@ -510,7 +510,17 @@ def D20():
     return "cb" not in y.__dict__ or x != y
 
 
-ALL = [D17, D18, D19, D20, F_C08_1, D1, D2, D3, D4, D5, D6, D7, D8, D9, D10, D11, D12, D13, D14, D15, D16,
+def D21():
+    "C18: an alias path with a double-quoted item followed by an attribute is rejected (single quotes work)"
+    from spec_classes.types import Alias
+    try:
+        Alias('a["k"].b')
+    except ValueError:
+        return True
+    return False
+
+
+ALL = [D17, D18, D19, D20, D21, F_C08_1, D1, D2, D3, D4, D5, D6, D7, D8, D9, D10, D11, D12, D13, D14, D15, D16,
        F_C01_1, F_C02_1, F_C04_1, F_C13_1, F_C07_1, F_C07_2, F_C07_3, F_C04_2, F_C01_2]
 
 if __name__ == "__main__":
